@@ -216,3 +216,46 @@ def prov(unit, fn, e, depth=0, seen=None):
     if k == 'CXXOperatorCallExpr' and e.get('op') in ('*', '->', '[]'):
         return 'Shared(element %s)' % unit.text(e, 40)
     return 'Unknown(%s)' % k
+
+
+def local_sources(fn, d):
+    """expressions a local variable gets its value from: initialiser + every assignment to it"""
+    v = var_table(fn).get(d)
+    out = []
+    if v and is_node(v['decl'].get('init')):
+        out.append(v['decl']['init'])
+    for lhs, rhs, _ in assignments(fn):
+        l = strip(lhs)
+        if l is not None and l['k'] == 'DeclRefExpr' and l.get('d') == d:
+            out.append(rhs)
+    return out
+
+
+def origins(fn, e, stop=None, depth=0, seen=None):
+    """Set of declaration ids (params / locals) an expression's value derives from, following local
+    initialisers and assignments, receivers of member calls, call/constructor arguments and operators.
+    Declarations in `stop` are returned without being expanded."""
+    seen = seen if seen is not None else set()
+    out = set()
+    e = strip(e)
+    if e is None or depth > 14:
+        return out
+    k = e['k']
+    if k == 'DeclRefExpr':
+        d = e.get('d')
+        v = var_table(fn).get(d)
+        if v is None:
+            return out
+        out.add(d)
+        if stop is not None and d in stop:
+            return out
+        if v['kind'] == 'local' and d not in seen:
+            seen.add(d)
+            for s in local_sources(fn, d):
+                out |= origins(fn, s, stop, depth + 1, seen)
+        return out
+    for _, c in __import__('vfacts').children(e):
+        if c.get('k') == 'LambdaExpr':
+            continue
+        out |= origins(fn, c, stop, depth + 1, seen)
+    return out
